@@ -27,7 +27,15 @@ RULE = ('fitted GaussianMultivariate models with 2-6 columns (latent 2-factor no
         'recorders around np.random.multivariate_normal and _get_conditional_distribution; the driver gets the '
         'real correlation, the real score table (column x caller item), the container kind, the key order and '
         'the recorded draws.  A case is distinct by (model, ordered items, container, n) and non-trivial when it '
-        'is well-formed (non-empty proper subset of the training columns)')
+        'is well-formed (non-empty proper subset of the training columns).  The recorder also normalises a '
+        'scalar np.random.normal(loc, scale, size) call to (mean, scale**2, draws), so an equivalent way of drawing a '
+        'single column is not an alarm.  SEARCH (always run): the statement on the OUTPUT, independent of how the '
+        'code draws - models of every size d = 2..5 (+ random), every all-but-one conditioning subset explicitly '
+        '(exactly one column left to sample) plus all / random other subsets, dict and Series, both key orders; '
+        'the normal scores Z of the unconditioned output columns are regressed on the same seed\'s '
+        'RandomState(seed).standard_normal((n, m)) stream G: an exact fit Z = 1a\' + GB identifies the output law '
+        'as N(a, B\'B), which must equal (S12 S22^-1 z, Schur complement) - deterministic, no statistics; where '
+        'the fit is not exact (another generator) the deep mode falls back to moment bands on n = 20000')
 PARTIAL = ['conditional_law_partial: that N(mu_bar, Sigma_bar) IS the conditional law of a partitioned normal is '
            'the classical theorem, not re-proved (its algebraic core - residual uncorrelated with the conditioned '
            'block, residual covariance = Schur complement - is proved); that numpy draws from N(mean, cov) is in '
